@@ -13,6 +13,10 @@ OBLIGATIONS = [
     "Pkgcore.C10.solutions_complete",
     "Pkgcore.C10.solutions_nodup",
     "Pkgcore.C10.preferred_first",
+    # the preferred assignment is the one the property words (independent of the order of the domains)
+    "Pkgcore.C10.preferred_is_property_preference",
+    "Pkgcore.C10.preferred_is_property_preference_counterexample",
+    "Pkgcore.C10.preferred_first_property",
     # the solver itself (faithful model of snakeoil.constraints.Problem), for every problem
     "Pkgcore.C10.Solver.forward_check_sound",
     "Pkgcore.C10.Solver.solver_sound",
@@ -28,6 +32,7 @@ OBLIGATIONS = [
     "Pkgcore.C10.solutions_complete_faithful",
     "Pkgcore.C10.solutions_nodup_faithful",
     "Pkgcore.C10.preferred_first_faithful",
+    "Pkgcore.C10.preferred_first_faithful_property",
     "Pkgcore.C10.faithful_perm_contract",
 ]
 TRUSTED = [
@@ -50,7 +55,8 @@ ASSUMPTIONS = [
 RULE = ("random REQUIRED_USE strings (||, ^^, ??, all-of, conditionals, negated conditionals and literals, depth <= 3) over up to 5 flags, parsed by "
         "the real DepSet.parse; every IUSE subset for <= 3 flags (random subsets above), random forced/preferred sets drawn from the mentioned "
         "flags and two unmentioned ones whether or not they are in IUSE (0 .. all flags forced, so that whole rules are pinned; handed over as "
-        "set/frozenset/tuple/list); satisfying sets enumerated by brute force with the specification; then *sessions* in one process: the same "
+        "set/frozenset/tuple/list); hand-written queries with a forced-on, a forced-off, a preferred and a plain flag together; satisfying "
+        "sets enumerated by brute force with the specification, the preferred assignment computed from the wording; then *sessions* in one process: the same "
         "and related queries started again after a full enumeration, while earlier result iterators are suspended after 0..n items, drained "
         "later or closed early, every answer judged like a first answer; non-trivial = the constraint has a choice group or a conditional and "
         "at least two variables; raw constraint problems for the solver: 3-6 variables with domains of 1-3 values in random order, 0-5 random "
@@ -58,6 +64,23 @@ RULE = ("random REQUIRED_USE strings (||, ^^, ??, all-of, conditionals, negated 
         "least one constraint over two or more variables")
 
 FLAGS = ["a", "b", "c", "d", "e"]
+
+
+def wording_preferred(variables, iuse, ft, ff, pt):
+    """The preferred assignment, from the property's wording alone (no model, no solver domains): forced flags as forced,
+    preferred flags on, all others off; a flag the package does not have (outside IUSE) is off whatever the profile
+    forces or the caller prefers.  Defined only for queries the real call accepts (no IUSE flag forced both ways)."""
+    out = {}
+    for f in variables:
+        if f not in iuse:
+            out[f] = False
+        elif f in ft:
+            out[f] = True
+        elif f in ff:
+            out[f] = False
+        else:
+            out[f] = f in pt
+    return out
 
 
 def gen_ru(rng, flags, depth):
@@ -131,6 +154,14 @@ def run(ctx):
             pt = [f for f in universe if rng.random() < 0.3]
             cases.append((s, iuse, ft, ff, pt))
 
+    # hand-written preference cases: forced-on / forced-off / preferred / plain flags together, preferred flags that are
+    # forced off or outside IUSE, forced flags outside IUSE, rules the preferred assignment satisfies and rules it does not
+    for s in ("|| ( a b c d )", "?? ( a b ) || ( c d )", "c? ( !d )", "^^ ( c d )", "a? ( c ) !b? ( || ( c d ) )", "", "!c", "d"):
+        cases.append((s, ["a", "b", "c", "d"], ["a"], ["b"], ["c"]))
+        cases.append((s, ["a", "b", "c", "d"], ["a", "y"], ["b", "c"], ["b", "c", "d", "z"]))
+        cases.append((s, ["b", "c", "d"], ["a"], ["b"], ["a", "c"]))
+        cases.append((s, ["a", "b", "c", "d"], [], [], ["a", "b", "c", "d"]))
+
     reqs, meta = [], []
     for s, iuse, ft, ff, pt in cases:
         d = parse(s)
@@ -150,6 +181,15 @@ def run(ctx):
             ctx.violation(case, f"find_constraint_satisfaction raised {type(e).__name__}: {e}")
             continue
         variables = sorted(set(iuse) | set(required_use.iter_flags(d))) if s.strip() else sorted(iuse)
+        # the preferred assignment comes from the property's wording, computed here; the model's own notion ("the last value
+        # of every domain it builds") is only compared with it
+        wpref = wording_preferred(variables, iuse, ft, ff, pt)
+        ctx.count("preferred_on_%d" % min(sum(wpref.values()), 4))
+        kinds = (any(f in iuse for f in ft), any(f in iuse for f in ff), any(f in iuse and f not in ft and f not in ff for f in pt),
+                 any(f in iuse and f not in ft and f not in ff and f not in pt for f in variables))
+        ctx.count("flag_kinds_forcedon%d_forcedoff%d_preferred%d_plain%d" % tuple(map(int, kinds)))
+        if canon(rep["preferred"]) != canon(wpref):
+            ctx.mismatch(case, f"the model's preferred assignment {rep['preferred']} is not the one the property words: {wpref}")
         nontriv = any(tok in s for tok in ("||", "^^", "??", "?")) and len(variables) >= 2
         ctx.case(case, nontriv, key=repr(case))
         ctx.count("variables_%d" % min(len(variables), 6))
@@ -166,10 +206,8 @@ def run(ctx):
             k = next(i for i, (x, y) in enumerate(zip(ordered_real, ordered_model)) if x != y) if len(ordered_real) == len(ordered_model) else -1
             ctx.mismatch(case, f"the real solver yields its {len(ordered_real)} solutions in another order than the solver model "
                                f"(first difference at position {k}): real {ordered_real[:4]}..., model {ordered_model[:4]}...")
-        elif sols and canon(rep["solutions"][0]) == canon(rep["preferred"]) and canon(sols[0]) != canon(rep["solutions"][0]):
-            # (beyond the first solution, and when the preferred assignment fails, the real solver's dynamic variable
-            # ordering decides the order; the contract and the property only fix the preferred-first case)
-            ctx.mismatch(case, f"the preferred assignment satisfies, yet the first solution {sols[0]} differs from the model's {rep['solutions'][0]}")
+        # (beyond the first solution, and when the preferred assignment fails, the real solver's dynamic variable ordering
+        # decides the order; the property only fixes the preferred-first case, judged below against the worded assignment)
         # ---- the property on the real output
         if len(set(got)) != len(got):
             ctx.violation(case, "a solution was produced more than once")
@@ -190,9 +228,9 @@ def run(ctx):
         except Exception:
             pass
         ereqs.append({"cmd": "c10.eval", "deps": j, "ons": admissible})
-        emeta.append((case, variables, admissible, sols, rep, d))
+        emeta.append((case, variables, admissible, sols, rep, d, wpref))
     by_string = {}
-    for (case, variables, admissible, sols, rep, d), out in zip(emeta, ctx.model(ereqs)):
+    for (case, variables, admissible, sols, rep, d, wpref), out in zip(emeta, ctx.model(ereqs)):
         produced = {tuple(sorted(f for f, v in a.items() if v)) for a in sols}
         guard = rep["guard"]
         for on, (code_ok, spec_ok) in zip(admissible, out):
@@ -204,15 +242,20 @@ def run(ctx):
                 detail = (f"assignment with {on} on is {'produced' if key in produced else 'not produced'} but "
                           f"{'satisfies' if spec_ok else 'does not satisfy'} REQUIRED_USE (as ebd._check_required_use / Portage read it)")
                 ctx.violation(dict(case, on=on), detail, finding=None if guard else "C10-unmet-conditional-in-choice-group")
-        pref = {f for f, v in rep["preferred"].items() if v}
+        pref = {f for f, v in wpref.items() if v}          # from the wording, not from the model
         idx = next((i for i, on in enumerate(admissible) if set(on) == pref), None)
-        if idx is not None and out[idx][0] and sols:
-            first = {f for f, v in sols[0].items() if v}
+        if idx is None:
+            ctx.mismatch(case, f"the worded preferred assignment {sorted(pref)} is not among the admissible assignments (harness)")
+        pref_ok = idx is not None and (out[idx][0] or tuple(sorted(pref)) in produced)
+        ctx.count("preferred_satisfies_%s" % bool(pref_ok))
+        if pref_ok:
+            first = {f for f, v in sols[0].items() if v} if sols else None
             if first != pref:
-                ctx.violation(case, f"the preferred assignment {sorted(pref)} satisfies the constraint but the first solution is {sorted(first)}")
+                ctx.violation(case, f"the preferred assignment {sorted(pref)} (forced as forced, preferred on, others off) satisfies the "
+                                    f"constraint but the first solution is {sorted(first) if first is not None else 'missing: no solution'}")
         by_string.setdefault(case["required_use"], []).append(
             {"case": case, "d": d, "first_answer": sorted(canon(a) for a in sols),
-             "preferred": canon(rep["preferred"]) if (idx is not None and out[idx][0]) else None})
+             "preferred": canon(wpref) if pref_ok else None})
 
     # ------------------------------------------------------------------ the solver itself: raw constraint problems given directly to
     # the real snakeoil Problem and to the solver model; the ORDERED solution sequences must agree, and the real output is judged
@@ -414,10 +457,13 @@ LEVEL_TEXT = ("Kernel-checked Lean 4 theorems about a model of required_use.py: 
               "checking has no consistent extension), duplicate-free, to enumerate the values of the branching variable from the end of its domain, "
               "and to yield the all-last-values assignment first when it is a solution; instantiated with the problem find_constraint_satisfaction "
               "builds this gives, with no solver contract, that the solutions are sound, complete, duplicate-free and the preferred assignment comes "
-              "first when it satisfies (the earlier contract model is proved to have exactly the same solutions). Tied to the code by a differential "
+              "first when it satisfies (the earlier contract model is proved to have exactly the same solutions); the preferred assignment is "
+              "proved, flag by flag and without reference to the order of the domains, to be the one the property words: on iff in IUSE and "
+              "(forced on, or not forced off and in the preferred set). Tied to the code by a differential "
               "run that compares the real solver's ORDERED solution sequence with the solver model (REQUIRED_USE queries and random raw constraint "
               "problems given directly to snakeoil's Problem) and the solutions with a brute-force enumeration judged by the specification, and "
-              "that re-asks the same and related queries in one process (after full enumerations, with earlier result iterators suspended, "
+              "that computes the preferred assignment in Python from the wording (not from the model) and demands it as the real first solution "
+              "whenever it satisfies, and that re-asks the same and related queries in one process (after full enumerations, with earlier result iterators suspended, "
               "drained later or closed) demanding the same answer every time.")
 LEVEL_NOTE = ("The solver is no longer a contracted parameter: it is modelled and proved. Trusted about it: that the recursive model is the explicit-queue "
               "loop of __solve and that set/dict iteration order is immaterial (compared per run, ordered). The solver never calls a constraint "
